@@ -11,6 +11,7 @@ import Driver.C15Mon
 import Driver.C06Mon
 import Driver.C17Mon
 import Driver.C03Mon
+import Driver.C18Mon
 open Kv
 
 structure MState where
@@ -37,6 +38,7 @@ def dispatchMon (st : MState) (prop : String) (l : Line) : MState × String :=
   | "C06" => (st, Drv.C06.step l)
   | "C17" => let (s, r) := Drv.C17.stepMon st.c17 l; ({ st with c17 := s }, r)
   | "C03" => let (s, r) := Drv.C03.stepMon st.c03 l; ({ st with c03 := s }, r)
+  | "C18" => (st, Drv.C18.stepMon l)
   | _ => (st, "bad-op")
 
 def main : IO Unit := driverMain dispatchMon {}
